@@ -184,6 +184,8 @@ func (rt *runtime) cmplEvaluateNodeBracketExpression(node *nodeBracketExpression
 func (rt *runtime) cmplEvaluateNodeCallExpression(node *nodeCallExpression, withArgumentList []interface{}) Value {
 	this := Value{}
 	callee := rt.cmplEvaluateNodeExpression(node.callee)
+	// 11.2.3 step 2: GetValue(ref) precedes the evaluation of the arguments.
+	vl := callee.resolve()
 
 	argumentList := []Value{}
 	if withArgumentList != nil {
@@ -227,7 +229,6 @@ func (rt *runtime) cmplEvaluateNodeCallExpression(node *nodeCallExpression, with
 		file:   rt.scope.frame.file,
 	}
 
-	vl := callee.resolve()
 	if !vl.IsFunction() {
 		if name == "" {
 			// FIXME Maybe typeof?
@@ -263,6 +264,8 @@ func (rt *runtime) cmplEvaluateNodeDotExpression(node *nodeDotExpression) Value 
 
 func (rt *runtime) cmplEvaluateNodeNewExpression(node *nodeNewExpression) Value {
 	callee := rt.cmplEvaluateNodeExpression(node.callee)
+	// 11.2.2 step 2: GetValue(ref) precedes the evaluation of the arguments.
+	vl := callee.resolve()
 
 	argumentList := []Value{}
 	for _, argumentNode := range node.argumentList {
@@ -291,7 +294,6 @@ func (rt *runtime) cmplEvaluateNodeNewExpression(node *nodeNewExpression) Value 
 		atv = at(callee.idx)
 	}
 
-	vl := callee.resolve()
 	if !vl.IsFunction() {
 		if name == "" {
 			// FIXME Maybe typeof?
